@@ -451,6 +451,7 @@ class ServerSim:
         self.negotiated = False          # client has got <enabled/>, <resumed/> or a non-SM bind result on this connection
         self.binds = 0
         self.stream_closed = False
+        self.known_lost = []
 
     # -- what the client wrote -----------------------------------------------------------------------
     def ingest(self, seg):
@@ -559,8 +560,14 @@ class ServerSim:
         self.sm_on = False
         self.awaiting = None
         self.negotiated = False
-        # retransmissions that were due but did not make it stay owed (in front of the rest)
-        self.owed = self.expect + [e for e in self.owed if e not in self.expect]
+        # retransmissions that were due (the client had re-queued them) but did not make it before the connection
+        # went away: the next connect frees the send queue, they never come again (known class)
+        for e in self.expect:
+            if e not in self.known_lost:
+                self.known_lost.append(e)
+                self.v.known.append(("lost-after-requeue", "%s had been written and was re-queued after <resumed/>/<enabled/>; the "
+                                     "connection was lost before it was written again and the next connect discards it" % short(e)))
+        self.owed = [e for e in self.owed if e not in self.expect]
         self.expect = []
         s = self.sess
         if s is not None and s.alive and (orderly or not s.resumable or not s.established):
@@ -734,12 +741,8 @@ class ServerSim:
         for s in self.sessions:
             delivered.update(s.recv)
         for el in self.counted:
-            if el not in delivered:
-                what = "%s was written on an SM session, not reported as handled, and never comes again" % short(el)
-                if el in self.requeued:
-                    v.known.append(("lost-after-requeue", what))
-                else:
-                    v.c04.append(("lost", what))
+            if el not in delivered and el not in self.known_lost:
+                v.c04.append(("lost", "%s was written on an SM session, not reported as handled, and never comes again" % short(el)))
         if self.a_seen < len(self.r_expected):
             v.c05.append(("r-unanswered", "%d <r/> sent on the connection, %d <a/> received" % (len(self.r_expected), self.a_seen)))
         return v
@@ -830,6 +833,13 @@ def gen_honest(rng, max_reconnects=4):
         if rng.random() < 0.12:
             ops += [("connect", rng.choice([2, 4, 6])), ("rxreset",), ("run",)]
         ops += reconnect_ops(rng, g)
+        if rng.random() < 0.15:
+            # the connection dies right after the server's answer, before what was re-queued is written again
+            # (the window of the known class C04-resend-lost-on-reconnect)
+            cutpoint = max(i for i, o in enumerate(ops) if o[0] == "sym" and o[1] == "reply")
+            first = min(i for i, o in enumerate(ops) if o[0] == "sym" and o[1] == "reply" and i > len(ops) - 16)
+            ops = ops[:first + 1] + [("tx", ["again", "again"]), ("run",), rng.choice([("rxreset",), ("rxclose",)]), ("run",)]
+            ops += reconnect_ops(rng, g)
     ops += drain_ops(rng, g)
     return ops
 
@@ -1086,6 +1096,10 @@ def build_exes(pid):
             return exe, mexe
         except vlib.BuildError as e:       # another check may be pruning the shared build directory: retry
             last = e
+            if "extracted model" in str(e) and attempt < 3:
+                # /repo changed between the Coq step and now (the snapshot is keyed by the tree's hash): take it again
+                vlib.coq_property(pid)
+                continue
             if "does not compile" in str(e) or "OCaml" in str(e) or "extracted model" in str(e):
                 raise
             time.sleep(1.5)
@@ -1122,8 +1136,13 @@ def run_check(chk, pid):
         "everything before the post-authentication <stream:features/> is the fixed prefix of the scenarios (PLAIN, no TLS); the model starts there",
         "stanza-aligned read chunks (expat reparse deferral is C10's subject); the virtual clock never moves (no timed handler fires)",
         "the server simulator (checks/smcommon.py ServerSim) is the reference for 'what a XEP-0198 server counts and reports'",
-        "theorems with the `all_honest` hypothesis assume the server answers a request only after it was written completely and reports "
-        "<resumed h> with acked <= h <= written < 2^32 (Spec/SmSpec.v honest)",
+        "theorems with the `all_honest` hypothesis (sm_retained, sm_resends_first, third part of sm_no_loss_no_dup) assume one thing "
+        "of the server: an accepted <resumed h> has reported <= h <= written by the client, and the session carried < 2^32 stanzas "
+        "(Spec/SmSpec.v honest); all other theorems hold for every history",
+        "the ghost server of Spec/SmSpec.v counts a stanza when the client has written it completely while SM is on and cuts the "
+        "count back to h at <resumed h> (stanzas lost in flight); it changes state at the client's protocol points (marks OG _)",
+        "sm_disable flag, session-establishment iq, stream features without <bind/>, user stanza handlers, xmpp_send_raw during "
+        "negotiation and xmpp_conn_send_queue_drop_element (C06) are not part of the model",
     ]
     if pid == "C04" and not any(k.get("id") == KNOWN_ID for k in chk.known):
         chk.known.append(dict(KNOWN_ENTRY))      # proposed entry, see the builder's report (known_findings.json is not edited here)
